@@ -136,6 +136,12 @@ type built struct {
 	prog    *Prog
 }
 
+// DiscardCase marks a generated case that cannot be judged for a reason that lies in the generator alone; it is
+// counted in the evidence and skipped.
+type DiscardCase struct{ Msg string }
+
+func (e *DiscardCase) Error() string { return e.Msg }
+
 // InfraError marks trouble that is not a property violation (exit 2).
 type InfraError struct{ Msg string }
 
@@ -208,12 +214,18 @@ func (e *Engine) native(b *built) ([]string, int, error) {
 		return nil, 0, &InfraError{"native reference: " + err.Error() + "\n" + out}
 	}
 	if e.spec.NativeStability {
+		if code != 0 {
+			return nil, 0, &DiscardCase{"the native reference program does not terminate normally"}
+		}
 		for _, procs := range []string{"1", "4", "16", "2"} {
 			c := exec.Command(filepath.Join(b.dir, "native.bin"))
 			c.Env = append(os.Environ(), "GOMAXPROCS="+procs)
 			o2, _ := c.CombinedOutput()
 			if string(o2) != out {
-				return nil, 0, &InfraError{"generator bug: the native reference program is not deterministic (output differs under GOMAXPROCS=" + procs + ")"}
+				// The generator promised a deterministic program and did not keep the promise for this one (e.g. a
+				// process network that deadlocks natively, whose goroutine dump differs from run to run): the
+				// program cannot serve as its own reference and is set aside, whatever the tree under test does.
+				return nil, 0, &DiscardCase{"the native reference program is not deterministic (output differs under GOMAXPROCS=" + procs + ")"}
 			}
 		}
 	}
@@ -370,10 +382,21 @@ func RunCollect(spec Spec) (int, *evidence.Evidence) {
 				}
 				o, err := e.observe(b, rng.Derive(spec.Seed, spec.Property, "tapes", i), nil, true)
 				os.RemoveAll(b.dir)
+				if dc, ok := err.(*DiscardCase); ok {
+					counters.Add("cases_discarded", 1)
+					counters.Add("cases_discarded:"+dc.Msg, 1)
+					continue
+				}
 				if err != nil {
 					mu.Lock()
 					if infra == nil {
-						infra = err
+						infra = fmt.Errorf("case %d: %w", i, err)
+						if dir := os.Getenv("VERIF_KEEP_INFRA"); dir != "" { // debugging aid: keep the program
+							for name, content := range p.Files {
+								os.MkdirAll(filepath.Join(dir, filepath.Dir(name)), 0o755)
+								os.WriteFile(filepath.Join(dir, name), []byte(content), 0o644)
+							}
+						}
 					}
 					mu.Unlock()
 					continue
